@@ -238,6 +238,15 @@ func (vc *VC) loadGlobal(st *State, g *ssa.Global) Value {
 	name := "gv_" + smtName(g.Pkg.Pkg.Name()+"_"+g.Name())
 	vc.declare(name, s)
 	v := T(s, name)
+	// a package-level variable that is only ever assigned once, a constant, in the package
+	// initialiser, has that value
+	if c := vc.eng.constGlobal(g); c != nil {
+		cv := vc.constValue(c)
+		if ct, ok := cv.(*Term); ok && ct.Sort.Name == s.Name {
+			vc.axiom(fmt.Sprintf("(= %s %s)", name, ct.S))
+			vc.note("package variable %s.%s is only assigned in its initialiser: treated as the constant it is initialised with", g.Pkg.Pkg.Name(), g.Name())
+		}
+	}
 	if isErrorType(elem) {
 		// package-level error values: non-nil, pairwise distinct, never reassigned (assumption)
 		id := vc.eng.globalID(g)
@@ -311,7 +320,8 @@ func (vc *VC) scriptPrefix(st *State) string {
 		b.WriteString("(assert " + a + ")\n")
 	}
 	for _, a := range st.pc {
-		b.WriteString("(assert " + a + ")\n")
+		b.WriteString(a)
+		b.WriteByte('\n')
 	}
 	return b.String()
 }
@@ -1661,4 +1671,55 @@ func (e *Engine) debugRefs(fn *ssa.Function) map[string][]*ssa.DebugRef {
 	}
 	e.dbgRefs[fn] = m
 	return m
+}
+
+// constGlobal: the constant a global is initialised with, when no other store to it exists.
+func (e *Engine) constGlobal(g *ssa.Global) *ssa.Const {
+	if c, ok := e.constGlobals[g]; ok {
+		return c
+	}
+	var found *ssa.Const
+	stores := 0
+	var scan func(fn *ssa.Function)
+	seen := map[*ssa.Function]bool{}
+	scan = func(fn *ssa.Function) {
+		if fn == nil || seen[fn] {
+			return
+		}
+		seen[fn] = true
+		for _, b := range fn.Blocks {
+			for _, ins := range b.Instrs {
+				if st, ok := ins.(*ssa.Store); ok && st.Addr == g {
+					stores++
+					if c, ok := st.Val.(*ssa.Const); ok && fn.Name() == "init" {
+						found = c
+					} else {
+						found = nil
+						stores += 100
+					}
+				}
+			}
+		}
+		for _, an := range fn.AnonFuncs {
+			scan(an)
+		}
+	}
+	for _, m := range g.Pkg.Members {
+		switch x := m.(type) {
+		case *ssa.Function:
+			scan(x)
+		case *ssa.Type:
+			for _, t := range []types.Type{x.Type(), types.NewPointer(x.Type())} {
+				ms := e.prog.MethodSets.MethodSet(t)
+				for i := 0; i < ms.Len(); i++ {
+					scan(e.prog.MethodValue(ms.At(i)))
+				}
+			}
+		}
+	}
+	if stores != 1 {
+		found = nil
+	}
+	e.constGlobals[g] = found
+	return found
 }
